@@ -22,7 +22,7 @@ RULE = ("Random interleavings (5-80 operations) of quotes and discontinuations o
         "contains a discontinuation followed by a quote for the same contract, or a chain-addressed quote after a roll.")
 ASSUMPTIONS = ["a quote is 'accepted' iff its book is alive; rejected quotes must not be appended to the history"]
 REQUIRED = ["C14:price", "C14:alive", "C14:history", "C14:sides", "C14:chain-key-is-lead", "C14:string-key-same-book", "C14:vectors"]
-REQUIRED_CATS = ["user-chain-with-own-roll-rule", "chain-from-explicit-subset-plus-class", "refused-query-then-carry-on", "late-print-stamped-before-discontinuation", "chain-quote-built-before-roll", "quote-type:int", "quote-type:npint", "quote-type:f32", "chain-from-unsorted-list", "quote:one-side-only", "query:sparse", "query:all-keys-every-op", "op:disc", "op:chainq", "op:strq", "quote-after-death", "chain-after-roll"]
+REQUIRED_CATS = ["offset-lookup-before-chain-key", "user-chain-with-own-roll-rule", "chain-from-explicit-subset-plus-class", "refused-query-then-carry-on", "late-print-stamped-before-discontinuation", "chain-quote-built-before-roll", "quote-type:int", "quote-type:npint", "quote-type:f32", "chain-from-unsorted-list", "quote:one-side-only", "query:sparse", "query:all-keys-every-op", "op:disc", "op:chainq", "op:strq", "quote-after-death", "chain-after-roll"]
 TECHNIQUE = "runtime monitoring: executable reference model (dict of books) compared after every operation of generated histories"
 LEVEL_TEXT = ("Exploration: history + executable model. Every generated quote/discontinuation history is replayed against a small "
               "deterministic model and every observable of every book is compared after each operation.")
@@ -212,6 +212,14 @@ def case(ctx, i, tier):
                       and same(lob.liq_price(1), mm["bid"]) and same(lob.liq_price(-1), mm["ask"])
                       and same(lob.acq_price(0), (mm["ask"] + mm["bid"]) / 2)
                       and same(lob.liq_price(0), (mm["ask"] + mm["bid"]) / 2), symbol=s_)
+        if roll_td == timedelta(0) and rng.random() < 0.3:
+            # a term-structure look-up (the contract AFTER the lead) on the same chain object at the same instant, right
+            # before the chain is used as a key
+            try:
+                ch.lead_contract(month=rng.choice([1, 2]))
+                ctx.cat("offset-lookup-before-chain-key")
+            except IndexError:
+                pass
         ctx.check("C14:chain-key-is-lead", ex[ch] is ex[lead] and ex[ch] is ex[lead.symbol], lead=lead.symbol, now=t)
         second = [c for c in ch1.contracts if c.last_trading_date > t][1]
         ctx.check("C14:chain-key-is-lead", ex[ch1] is ex[second], second=second.symbol, now=t, offset=1)
